@@ -243,8 +243,48 @@ def _g_uv(rng, k):
     return uv
 
 
+_CANCEL = [[1.0, -1.0], [0.5, -0.5], [2.0, -2.0], [1.5, -1.5], [0.5, 0.25, -0.75], [1.0, 1.0, -2.0], [0.25, 0.25, -0.5],
+           [2.0, -1.0, -1.0], [-0.25, -0.75, 1.0], [1.0, -0.5, -0.25, -0.25]]
+_DYADIC = [1.0, -1.0, 0.5, -0.5, 0.25, -0.75, 2.0, -2.0, 1.5, -0.25]
+
+
+def _cancelling(rng, n):
+    """a length-n vector whose NON-ZERO entries sum to exactly zero (small dyadic values), n >= 2"""
+    pat = rng.choice([q for q in _CANCEL if len(q) <= n])
+    v = np.zeros(n)
+    for pos, x in zip(rng.sample(range(n), len(pat)), pat):
+        v[pos] = x
+    return v
+
+
+def _structured(rng, shape):
+    """small dyadic values with the structures a sparsity / emptiness shortcut can get wrong: rows and columns whose
+    non-zero entries cancel exactly, all-zero rows / columns, single-entry rows, all-negative rows"""
+    r, c = shape
+    m = np.array([[rng.choice(_DYADIC + [0.0, 0.0, 0.0]) for _ in range(c)] for _ in range(r)], dtype=float).reshape(r, c)
+    if rng.random() < 0.3:
+        m[rng.randrange(r), :] = 0.0
+    if rng.random() < 0.3:
+        m[:, rng.randrange(c)] = 0.0
+    if rng.random() < 0.3:
+        i = rng.randrange(r)
+        m[i, :] = 0.0
+        m[i, rng.randrange(c)] = rng.choice(_DYADIC)
+    if rng.random() < 0.3:
+        m[rng.randrange(r), :] = [-abs(rng.choice(_DYADIC)) for _ in range(c)]
+    if r >= 2 and rng.random() < 0.6:
+        m[:, rng.randrange(c)] = _cancelling(rng, r)
+    if c >= 2:                                    # last, so that at least one cancelling row survives
+        for i in rng.sample(range(r), rng.randint(1, max(1, r // 2))):
+            m[i, :] = _cancelling(rng, c)
+    return m
+
+
 def _signed(rng, shape):
-    """real matrix of any sign with exact zeros (the sparsity shortcut) -- all-positive in a minority of cases"""
+    """real matrix of any sign with exact zeros (the sparsity shortcut); 45% structured (see _structured), a minority
+    all-positive"""
+    if rng.random() < 0.45:
+        return _structured(rng, shape)
     m = gens.reals(rng, shape, -3, 3, special=False)
     m[np.array([[rng.random() < 0.3 for _ in range(shape[1])] for _ in range(shape[0])], dtype=bool).reshape(shape)] = 0.0
     return np.abs(m) if rng.random() < 0.2 else m
@@ -258,15 +298,15 @@ def _g_adj(rng, tier):
 
 
 def _g_tmm_pre(rng, tier):
-    for _ in range(gens.budget(tier, 150, 2000)):
-        n, k, p = rng.randint(1, 4), rng.randint(1, 4), rng.randint(1, 3)
+    for _ in range(gens.budget(tier, 300, 3000)):
+        n, k, p = rng.randint(1, 4), rng.randint(1, 4), rng.choice([1, 2, 2, 3, 3, 4])
         yield {"mapping_matrix": _signed(rng, (n, p)), "preloaded_reals": gens.reals(rng, (n, k), -1, 1),
                "preloaded_imags": gens.reals(rng, (n, k), -1, 1)}
 
 
 def _g_tmm(rng, tier):
-    for _ in range(gens.budget(tier, 150, 2000)):
-        n, k, p = rng.randint(1, 4), rng.randint(1, 4), rng.randint(1, 3)
+    for _ in range(gens.budget(tier, 300, 3000)):
+        n, k, p = rng.randint(1, 4), rng.randint(1, 4), rng.choice([1, 2, 2, 3, 3, 4])
         yield {"mapping_matrix": _signed(rng, (n, p)), "grid_radians": gens.reals(rng, (n, 2), -1e-5, 1e-5, special=False),
                "uv_wavelengths": _g_uv(rng, k)}
 
